@@ -149,7 +149,7 @@ def _classify_extra(ref, rs, s, extra):
 
 
 def gen(ref, tier):
-    k = 3 if tier == "thorough" else 2
+    k = 3 if tier == "thorough" else (1 if tier == "c20" else 2)
     if tier == "thorough":
         yield from searchgen.family(ref, k=2, rep=1)
     yield from searchgen.family(ref, k=k)
